@@ -79,6 +79,7 @@ class Oracle:
     def __init__(self, ctx, case):
         self.ctx, self.case = ctx, case
         self.added = {}  # id -> record bytes
+        self.thr = None  # the threshold the CALLER asked for last (the oracle never reads it back from the store)
 
     def fail(self, key, what):
         self.ctx.oracle_fail(key, what, self.case)
@@ -117,10 +118,19 @@ class Oracle:
                 self.fail(site + ":count", f"reported {ret} removed, {want} live samples were strictly below the threshold")
             if not os_.replace_all and any(s["logL"][i] < pre_thr for i in lv):
                 self.fail(site + ":count", "a live sample strictly below the threshold survived removal")
-        if os_.strict_threshold and op[0] in ("add",) and os_.log_likelihood_threshold is not None:
-            t = os_.log_likelihood_threshold
+        if os_.strict_threshold and op[0] in ("add",) and self.thr is not None:
+            t = self.thr
             if lv != [i for i in range(n) if s["logL"][i] >= t]:
                 self.fail(site + ":strict-live", f"strict threshold {t}: live set {lv} is not the samples at/above it {s['logL'].tolist()}")
+
+
+def scribble(x, q):
+    """the caller reuses its buffers after handing a batch over: the store must hold its own copy ("every sample ever added
+    is still present and unmodified"; seeded change C04-e: an already sorted batch was kept by reference)"""
+    if len(x):
+        for f in x.dtype.names:
+            x[f] = -12345 if x.dtype[f].kind in "iu" else -1.2345e300
+        q[...] = -7.77e200
 
 
 def run_impl(ctx, strict, repl, ops, case):
@@ -136,15 +146,18 @@ def run_impl(ctx, strict, repl, ops, case):
                 x, q = mk_batch(op[1])
                 os_.add_initial_samples(x, q)
                 orc.add(op[1])
+                scribble(x, q)
             elif op[0] == "add":
                 x, q = mk_batch(op[1])
                 orc.add(op[1])
                 os_.add_samples(x, q)
+                scribble(x, q)
             elif op[0] == "thr":
                 os_.update_log_likelihood_threshold(fkey(op[1]))
+                orc.thr = fkey(op[1])
             elif op[0] == "remove":
                 lp = os_.live_points
-                pre = ([] if lp is None else lp["logL"].tolist(), os_.log_likelihood_threshold)
+                pre = ([] if lp is None else lp["logL"].tolist(), orc.thr)
                 ret = os_.remove_samples()
             elif op[0] == "finalise":
                 os_.finalise()
